@@ -26,12 +26,12 @@ MAX_TIMEOUTS = {"quick": 1, "thorough": 20}
 REQUIRED = {"outputs_checked": 150, "atoms_checked": 3000, "box_from_density": 20, "box_from_option": 30,
             "box_from_structure": 30, "with_input_structure": 30, "with_meta_structure": 8, "with_build_res": 8,
             "with_start": 10, "with_grid": 8, "virtual_site_systems": 20, "zero_mass_atoms": 20,
-            "injected_failed_attempts": 50}
+            "injected_failed_attempts": 30, "injected_step_failures": 60}
 
 
 def plan(tier, seed):
     n = 260 if tier == "quick" else 6000
-    return [["opt", i] for i in range(n)] + [["faults", i] for i in range(n // 4)]
+    return [["opt", i] for i in range(n)] + [["faults", i] for i in range(n // 2)]
 
 
 def setup():
@@ -76,12 +76,18 @@ def make_options(rng, sysd, workdir, res, allow=("plain", "c_full", "c_prefix", 
         if base is None:
             return None, info
         groups = split_rows(sysd, base)
+        # back-mapped atoms may stick out of the box the structure was built in: translate everything into the
+        # positive octant and give the supplied structure a box that contains all of it
+        allxyz = np.array([r["xyz"] for r in base["rows"]])
+        shift = 0.2 - allxyz.min(axis=0)
+        newbox = [round(float(x), 3) for x in np.maximum(np.array(base["box"][:3]), allxyz.max(axis=0) + shift + 0.3)]
+        base["box"] = newbox
         info["box_src"] = "structure"
         info["box"] = base["box"]
         # round to the 3 decimals of the input file
         for g in groups:
             for r in g["rows"]:
-                r["xyz"] = tuple(round(x, 3) for x in r["xyz"])
+                r["xyz"] = tuple(round(x + s_, 3) for x, s_ in zip(r["xyz"], shift))
         if mode == "c_full":
             sup = groups
         elif mode == "c_prefix":
@@ -96,6 +102,13 @@ def make_options(rng, sysd, workdir, res, allow=("plain", "c_full", "c_prefix", 
         else:
             k = rng.randint(max(1, len(groups) // 2), len(groups))
             sup = groups[:k]
+        # supplied coordinates have to lie inside [0, L): a point exactly on the upper face is outside the
+        # half-open box (the program rejects it, with an error from the KD-tree)
+        bx = base["box"]
+        for g in sup:
+            cs = [r["xyz"] for r in g["rows"]] + [tuple(round(float(x), 3) for x in np.mean([r["xyz"] for r in g["rows"]], axis=0))]
+            if any(not (0.0 <= x < bx[k] - 1e-9) for c in cs for k, x in enumerate(c)):
+                return None, info
         if mode in ("mc", "mc_res"):
             rows = []
             for g in sup:
@@ -180,11 +193,15 @@ def check_output(res, sysd, info, kw, outp, key_suffix=""):
 
 def run_case(cid, rng, workdir):
     res = new_result()
-    sysd = T.gen_system(rng)
+    sysd = T.gen_system(rng, min_res=4 if cid[0] == "faults" else 1)
     text = T.render_top(sysd)
     with open(os.path.join(workdir, "s.top"), "w") as fh:
         fh.write(text)
-    kw, info = make_options(rng, sysd, workdir, res)
+    if cid[0] == "faults" and rng.random() < 0.6:
+        # supplied residues in the middle of chains, so that rewinds span residues that are not built
+        kw, info = make_options(rng, sysd, workdir, res, allow=("c_res", "mc_res", "mc_res"))
+    else:
+        kw, info = make_options(rng, sysd, workdir, res)
     if kw is None:
         res["status"] = "rejected"
         return res
@@ -193,9 +210,16 @@ def run_case(cid, rng, workdir):
     if cid[0] == "faults":
         # schedule clause: the first k molecule attempts fail (injected at RandomWalk.run_molecule), with a small
         # number of allowed attempts so that the give-up-and-retry branch of the system builder is taken
-        kw["maxiter"] = rng.choice([1, 2])
-        ctx_kw["fail_attempts_left"] = rng.randint(1, 5)
-        bump(res, "injected_failed_attempts", ctx_kw["fail_attempts_left"])
+        if rng.random() < 0.5:
+            kw["maxiter"] = rng.choice([1, 2])
+            ctx_kw["fail_attempts_left"] = rng.randint(1, 5)
+            bump(res, "injected_failed_attempts", ctx_kw["fail_attempts_left"])
+        else:
+            # step level: a scripted success/failure schedule at the placement boundary (rewinds)
+            kw["nrewind"] = rng.choice([2, 3, 4, 5])
+            bits = [rng.random() < 0.75 for _ in range(rng.randint(6, 30))]
+            ctx_kw["step_schedule"] = iter(bits)
+            bump(res, "injected_step_schedules")
     run, ctx = CC.run_gen_coords(ctx_kw=ctx_kw, toppath=Path(workdir) / "s.top", outpath=outp, name="x", **kw)
     opts = {k: (v.tolist() if hasattr(v, "tolist") else str(v) if isinstance(v, (Path, list)) else v) for k, v in kw.items()}
     res["sample"] = {"system": T.describe(sysd), "options": opts, "mode": info["mode"]}
@@ -213,6 +237,7 @@ def run_case(cid, rng, workdir):
             violation(res, "crash:%s:%s" % (info["mode"], run["exc_type"]), "gen_coords stopped with %s\n%s" %
                       (run["error"], run.get("tb", "")[-500:]), w)
         return res
+    bump(res, "injected_step_failures", ctx["stats"].get("injected_step_failures", 0))
     nmol = len(T.expand(sysd))
     res["nontrivial"] = nmol >= 2 or T.n_residues(sysd) >= 4
     if info["mode"] in ("c_full", "c_prefix", "c_res"):
